@@ -61,6 +61,12 @@ func ipamHistSystems(cloud bool) []*HistSys {
 	for _, c := range []wkClass{{"sts", ""}, {"sts", "never"}, {"dp", "immutable"}} {
 		out = append(out, &HistSys{Class: c, Cfg: shared, NPods: 2, Replicas: 2, Ops: opsR, PrefixName: "shared-pod-subnet"})
 	}
+	// the first pod failed (that notification has been handled) and was deleted (that one has not): a late delete event of the old
+	// incarnation meets whatever happens next, restarts included (what tells a stale event from a current one must survive them)
+	lateDelete := append(append([]Op{}, bound...), Op{Kind: "finish", A: 0}, Op{Kind: "deliver", A: 0}, Op{Kind: "delete", A: 0})
+	for _, c := range []wkClass{{"sts", ""}, {"sts", "immutable"}, {"bare", ""}} {
+		out = append(out, &HistSys{Class: c, Cfg: cfgTwoPools(cloud), NPods: 2, Replicas: 2, Ops: opsR, PrefixName: "latedelete", Prefix: lateDelete})
+	}
 	return out
 }
 
